@@ -72,6 +72,9 @@ def run(ck):
     ck.floor("ATOM/rejection", n, 40)
     decoders.check_table_fields(ck, P, "ATOM/header-fields")
     inflate_table_rules(ck, P)
+    # a valid stream may use a 15-bit distance code with 13 extra bits: the fast loops must have (or fetch) 28 bits there
+    from . import c02
+    c02.fast_refill(ck, P, "GUARD/fast-bit-budget", fns=(c02.FAST,))
     m = tables.decoder_tables(ck, P, "CONST/dec-rfc")
     ck.extra["table_entries_compared"] = m
     ck.extra["exhaustive"] = True
